@@ -1190,8 +1190,9 @@ def main():
     import ctx2lean   # the state machine (statement-level translation); shares this module's helpers
     import codec2lean  # the frame codec, same machinery
     import hs2lean     # the handshake machine
+    import coll2lean   # the UTF-8 collector of fragmented text messages
     gens = GENERATORS + [('Ctx.lean', ctx2lean.gen_ctx), ('CodecGen.lean', codec2lean.gen_codec),
-                         ('HsGen.lean', hs2lean.gen_hs)]
+                         ('HsGen.lean', hs2lean.gen_hs), ('CollGen.lean', coll2lean.gen_coll)]
     for name, fn in gens:
         try:
             text = fn(repo)
